@@ -24,6 +24,32 @@ B_PURE = {"fclose", "getc", "ungetc", "ferror", "fflush", "stdin", "fputc", "fpu
 SAN = ["-fsanitize=address,undefined", "-fno-sanitize=pointer-overflow", "-fno-sanitize-recover=all", "-fno-omit-frame-pointer"]
 
 
+def comma_locale():
+    """A locale whose decimal point is ',' compiled with localedef (none is installed here): the simulated
+    setlocale(LC_ALL, "") may select it, as a user's environment would.  Returns its LOCPATH or None."""
+    top = os.path.join(BUILD, "locale-v1")
+    if os.path.exists(os.path.join(top, "xx_XX", "LC_NUMERIC")):
+        return top
+    ld = shutil.which("localedef")
+    if not ld:
+        return None
+    with Lock("locale"):
+        if os.path.exists(os.path.join(top, "xx_XX", "LC_NUMERIC")):
+            return top
+        shutil.rmtree(top, ignore_errors=True)
+        os.makedirs(top)
+        with open(os.path.join(top, "ascii.cm"), "w") as f:
+            f.write("<code_set_name> ANSI_X3.4-1968\n<comment_char> %\n<escape_char> /\n<mb_cur_min> 1\n<mb_cur_max> 1\nCHARMAP\n")
+            for i in range(128):
+                f.write("<U%04X> /x%02x c%d\n" % (i, i, i))
+            f.write("END CHARMAP\n")
+        with open(os.path.join(top, "xx_XX.src"), "w") as f:
+            f.write('LC_NUMERIC\ndecimal_point "<U002C>"\nthousands_sep ""\ngrouping -1\nEND LC_NUMERIC\n')
+        import subprocess
+        subprocess.run([ld, "-c", "-f", os.path.join(top, "ascii.cm"), "-i", os.path.join(top, "xx_XX.src"), os.path.join(top, "xx_XX")], stdout=subprocess.DEVNULL, stderr=subprocess.DEVNULL)
+        return top if os.path.exists(os.path.join(top, "xx_XX", "LC_NUMERIC")) else None
+
+
 def repo_sources():
     mk = open(os.path.join(build.REPO, "Makefile")).read()
     m = re.search(r"^SRC=\\\n((?:\t.*\\?\n)+)", mk, re.M)
